@@ -94,7 +94,7 @@ def c_event(e):
     res = {"ok": "DOk", "notfound": "DNotFound", "conflict": "DConflict"}.get(e["res"])
     if res is None:
         raise Unrepresentable("delete failed: %s" % e["res"])
-    return "(EDelete %s %s %s %s)" % (k, c_obj(e["read"]), c_optobj(e["pre"]), res)
+    return "(EDelete %s %s %d %d %s %s)" % (k, c_obj(e["read"]), e["puid"], e["prv"], c_optobj(e["pre"]), res)
 
 
 def c_res(sc, obs):
